@@ -80,7 +80,8 @@ def run(eng, R):
             for lp in [n for n in ast.walk(ini.node) if isinstance(n, ast.For) and _txt(n.iter) == "enumerate(self._fits)" and isinstance(n.target, ast.Tuple) and len(n.target.elts) == 2]:
                 iv, fv = _txt(lp.target.elts[0]), _txt(lp.target.elts[1])
                 END = ast.Expr(value=ast.Call(func=ast.Name(id="_END_", ctx=ast.Load()), args=[ast.Constant(value=0)], keywords=[]))
-                body = ast.Module(body=list(lp.body) + [END], type_ignores=[])
+                # (the list of names starts empty just before: a test `names is not None` inside the loop decides itself)
+                body = ast.Module(body=[ast.parse("%s = []" % names).body[0]] + list(lp.body) + [END], type_ignores=[])
                 app = common.call_args_by_path(body, lambda c: _txt(c.func) == "%s.append" % names)
                 ends = common.call_args_by_path(body, lambda c: c is END.value)
                 if not app:
